@@ -32,7 +32,7 @@ func init() {
 	fw.Register(&fw.Property{
 		ID:    "C19",
 		Level: "exploration",
-		Rule: "cases = PRNG histories on instances holding one database: local writes, loads after restart, snapshot loads and replication of single- and multi-writer logs, including replicas that already hold local entries when a longer foreign branch arrives. Every SetProgress/SetMax transition is observed through the replinfo hooks (old -> new, under the lock); (progress, max, len, maxClock) are read at every rest point. " +
+		Rule: "cases = PRNG histories on instances holding one database: local writes, loads after restart, snapshot loads and replication of single- and multi-writer logs, including replicas that already hold local entries when a longer foreign branch arrives, and local writes whose local-heads cache write fails (injected datastore failure). Every SetProgress/SetMax transition is observed through the replinfo hooks (old -> new, under the lock); (progress, max, len, maxClock) are read at every rest point. " +
 			"distinct = hash(step script); non-trivial = >= 2 writers, >= 20 transitions observed and >= 1 replica merged a foreign branch while holding local entries",
 		Assumptions: []string{"one database per instance (cross-database effects are C09)"},
 		Cases:       c19Cases,
@@ -412,6 +412,20 @@ func c19Run(c fw.Case) fw.Verdict {
 	if r.Cfg.OnDisk {
 		r.Cfg.WRestart = 4
 	}
+	// a datastore failure on the local-heads write, now and then: the write call fails, the status must stay sound
+	caches := map[int]*faultCache{}
+	r.PeerOpts = func(i int, o *sim.PeerOpts) {
+		caches[i] = newFaultCache()
+		o.Cache = caches[i]
+	}
+	frng := rand.New(rand.NewSource(c.Seed + 3))
+	r.OnStep = func(si int, st Step) {
+		if st.K == "w" && frng.Intn(7) == 0 {
+			if fc := caches[st.A]; fc != nil {
+				fc.Arm("/_localHeads")
+			}
+		}
+	}
 	mon := &replMonitor{r: r}
 	e.H.AddObserver(mon.observe)
 	mixed := 0
@@ -446,6 +460,11 @@ func c19Run(c fw.Case) fw.Verdict {
 	mon.mu.Lock()
 	tr := mon.transitions
 	mon.mu.Unlock()
+	inj := 0
+	for _, fc := range caches {
+		inj += int(fc.Injects)
+	}
+	r.V.Count("datastore_failures_injected", int64(inj))
 	r.V.Count("status_transitions_observed", int64(tr))
 	return r.finish(steps, nil, func() bool {
 		writers := map[int]bool{}
